@@ -234,3 +234,7 @@ func Digits(name string, n int) string { return StringN(name, n) }
 // SymbolicClock makes time.Now return fresh, non-decreasing symbolic instants under the engine
 // (natively the real clock is used).
 func SymbolicClock() {}
+
+// Regroup ends the case splits in force and starts a new one on v in one step: afterwards exactly
+// the paths with equal v merge.
+func Regroup(v int) int { return v }
